@@ -801,7 +801,85 @@ func yieldedCopy(li *LockInfo, in ssa.Instruction, r *Report, c *Ctx) bool {
 	}
 	prm, ok := resolveVal(base).(*ssa.Parameter)
 	if !ok {
+		// the pointer may have been parked in a local (a candidate list) or come through a helper: every parameter it
+		// can originate from must itself be a yielded copy
+		var srcs []*ssa.Parameter
+		derivesFrom(base, func(v ssa.Value) bool {
+			if q, ok := v.(*ssa.Parameter); ok && types.Identical(q.Type(), base.Type()) {
+				srcs = append(srcs, q)
+			}
+			return false
+		})
+		if len(srcs) == 0 {
+			return false
+		}
+		for _, q := range srcs {
+			if !privateParam(li, q, 0) {
+				return false
+			}
+		}
+		return true
+	}
+	return privateParam(li, prm, 0)
+}
+
+// privateParam: the pointer parameter prm always holds a yielded private copy: it is a parameter of a
+// range-over-func loop body whose iterators all yield copies, or a parameter of a helper all of whose callers
+// pass such a pointer.
+func privateParam(li *LockInfo, prm *ssa.Parameter, depth int) bool {
+	if depth > 3 {
 		return false
+	}
+	if v, done := yieldMemo[prm]; done {
+		return v
+	}
+	if prm.Parent().Parent() == nil || !isLoopBodyOf(prm.Parent()) {
+		// ordinary function: look at the callers
+		f := prm.Parent()
+		idx := -1
+		for i, q := range f.Params {
+			if q == prm {
+				idx = i
+			}
+		}
+		cs := li.Callers[f]
+		if idx < 0 || len(cs) == 0 {
+			return false
+		}
+		yieldMemo[prm] = true // assume, for recursion
+		for _, site := range cs {
+			call, ok := asCall(site.in)
+			if !ok {
+				yieldMemo[prm] = false
+				return false
+			}
+			a := callArgs(call)
+			if idx >= len(a) {
+				yieldMemo[prm] = false
+				return false
+			}
+			okArg := false
+			var srcs []*ssa.Parameter
+			derivesFrom(a[idx], func(v ssa.Value) bool {
+				if q, ok := v.(*ssa.Parameter); ok && types.Identical(q.Type(), prm.Type()) {
+					srcs = append(srcs, q)
+				}
+				return false
+			})
+			if len(srcs) > 0 {
+				okArg = true
+				for _, q := range srcs {
+					if q != prm && !privateParam(li, q, depth+1) {
+						okArg = false
+					}
+				}
+			}
+			if !okArg {
+				yieldMemo[prm] = false
+				return false
+			}
+		}
+		return true
 	}
 	if v, done := yieldMemo[prm]; done {
 		return v
@@ -916,4 +994,22 @@ func pointsToFreshCopies(f *ssa.Function, v ssa.Value, li *LockInfo) bool {
 		}
 	}
 	return okAll && n > 0
+}
+
+// isLoopBodyOf: fn is a closure that its parent hands to a call as an argument (the body of a range-over-func loop).
+func isLoopBodyOf(fn *ssa.Function) bool {
+	if fn.Parent() == nil {
+		return false
+	}
+	found := false
+	eachInstr(fn.Parent(), func(in ssa.Instruction) {
+		if call, ok := in.(*ssa.Call); ok {
+			for _, a := range call.Call.Args {
+				if closureFn(a) == fn {
+					found = true
+				}
+			}
+		}
+	})
+	return found
 }
